@@ -25,6 +25,10 @@ def run(prop, tier, seed):
                 # the same with target Parameters shared by all instances (per_instance=False)
                 {"module": M, "cfg": "%s_sn.cfg" % prop, "workers": 8, "simulate": 250 if quick else 10000, "depth": 10, "seed": seed + 1,
                  "opts": {"perinst": False}, "extra_defs": {"%s_sn.cfg" % prop: cfg("KAll", 6, True)}},
+                # the constant target is readonly
+                {"module": M, "cfg": "%s_gr.cfg" % prop, "workers": 8, "extra_defs": {"%s_gr.cfg" % prop: cfg("KRo", 1 if quick else 2, True)}},
+                {"module": M, "cfg": "%s_sr.cfg" % prop, "workers": 8, "simulate": 250 if quick else 10000, "depth": 10, "seed": seed + 3,
+                 "opts": {"perinst": False}, "extra_defs": {"%s_sr.cfg" % prop: cfg("KRo", 6, True)}},
                 # sources that clamp their own value while it is being dispatched
                 {"module": M, "cfg": "%s_gc.cfg" % prop, "workers": 8, "extra_defs": {"%s_gc.cfg" % prop: cfg("KClamp", 1 if quick else 2, True, clamp=True)}},
                 {"module": M, "cfg": "%s_sc.cfg" % prop, "workers": 8, "simulate": 250 if quick else 10000, "depth": 10, "seed": seed + 2,
